@@ -9,7 +9,7 @@ from vf.core import Result, through_code_under_test
 
 ID = "C09"
 LEVEL = "exploration"
-BUDGET = {"quick": 4800, "thorough": 48000}
+BUDGET = {"quick": 9600, "thorough": 96000}
 MIN_NONTRIVIAL = {"quick": 100, "thorough": 1000}
 RULE = (
     "Hypothesis draws a history (3-30 operations) over a pool of up to 6 states and two system objects sharing them "
